@@ -598,7 +598,8 @@ class Interp:
                     pass
         if isinstance(l, Const) and isinstance(r, Const):
             try:
-                ops = {ast.Sub: lambda a, b: a - b, ast.Mult: lambda a, b: a * b, ast.FloorDiv: lambda a, b: a // b, ast.Mod: lambda a, b: a % b, ast.Pow: lambda a, b: a ** b, ast.Div: lambda a, b: a / b}
+                ops = {ast.Sub: lambda a, b: a - b, ast.Mult: lambda a, b: a * b, ast.FloorDiv: lambda a, b: a // b, ast.Mod: lambda a, b: a % b, ast.Pow: lambda a, b: a ** b, ast.Div: lambda a, b: a / b,
+                       ast.BitAnd: lambda a, b: a & b, ast.BitXor: lambda a, b: a ^ b, ast.LShift: lambda a, b: a << b, ast.RShift: lambda a, b: a >> b, ast.MatMult: lambda a, b: a @ b}
                 return Const(ops[type(e.op)](l.v, r.v))
             except Exception:
                 pass
